@@ -147,10 +147,14 @@ func loadProgram(rels []string, sc *scratch) (*Program, map[string]*ssa.Package,
 	overlay := map[string][]byte{}
 	var patterns []string
 	for _, rel := range rels {
-		hp := hps[rel]
-		if hp == nil {
+		if hps[rel] == nil {
 			return nil, nil, fmt.Errorf("no harness sources for package %q", rel)
 		}
+		patterns = append(patterns, "./"+rel)
+	}
+	// every harness directory is overlaid (a harness package may use the seams
+	// that another harness directory adds to a package it imports)
+	for rel, hp := range hps {
 		for _, f := range hp.files {
 			src, err := os.ReadFile(f)
 			if err != nil {
@@ -160,7 +164,6 @@ func loadProgram(rels []string, sc *scratch) (*Program, map[string]*ssa.Package,
 		}
 		overlay[filepath.Join(repoDir, rel, "zz_verif_intrinsics.go")] =
 			[]byte("package " + hp.pkgName + "\n" + intrinsicsDecl)
-		patterns = append(patterns, "./"+rel)
 	}
 	cfg := &packages.Config{
 		Mode:       packages.LoadAllSyntax,
